@@ -115,8 +115,9 @@ def run_case(ctx, name, params):
             return
         for t, inds in pops.items():
             for i in inds:
-                if i.state != Individual.State.EVALUATED or len(i.costs) != setup["m"]:
-                    ctx.violation("bookkeeping/%s/unevaluated_recorded" % algo, "a recorded design of generation %d is not evaluated" % t, wit())
+                # (NSGA-II parent copies carry their costs but keep state EMPTY: the state is not part of this property)
+                if len(i.costs) != setup["m"] or len(i.costs_signed) != setup["m"] + 1:
+                    ctx.violation("bookkeeping/%s/recorded_without_costs" % algo, "a recorded design of generation %d carries no costs" % t, wit())
                     return
         if algo == "nsga2":
             for t in range(2, G + 1):
